@@ -133,7 +133,9 @@ def case(ctx, case):
         DECODE_KW = dict(decode_type="multistart_greedy", num_starts=case["multistart"], select_best=True)
         sig["decode"] = "multistart_greedy_best"
     else:
-        DECODE_KW = dict(decode_type="greedy")
+        DECODE_KW = dict(decode_type="greedy", **case.get("decode_kw", {}))
+        if case.get("decode_kw"):
+            sig["decode"] = "greedy+" + "+".join(sorted(case["decode_kw"]))
     with pinned_matnet_randomness(pol) if kind == "matnet" else contextlib.nullcontext():
         # ---- solo references ---------------------------------------------------------------------
         refs = []
